@@ -177,6 +177,124 @@ func parseModelSnap(capacity int, s string) *refmodel.LRU {
 	return m
 }
 
+// c14RunLarge: capacities far beyond what the state graph can cover. Four fixed histories per capacity N (fill past N;
+// fill, refresh the oldest, insert; fill, delete one in the middle, insert twice; the same fill as requests on a router
+// configured with CachingWithNum(N)) are compared with refmodel.LRU after every operation (result and length; the
+// full content every 64 operations and around the point where the cache becomes full).
+func c14RunLarge(c c14Case, st *fw.Stats) []fw.Viol {
+	var viols []fw.Viol
+	addViol := func(sig, msg string) {
+		if len(viols) < 6 {
+			viols = append(viols, fw.Viol{Sig: sig, Msg: msg})
+		}
+	}
+	N := c.Cap
+	key := func(i int) string { return fmt.Sprintf("k%d", i) }
+	type step struct {
+		op string
+		k  int
+	}
+	var hist []step
+	for i := 0; i < N; i++ {
+		hist = append(hist, step{"set", i})
+	}
+	switch c.Keys {
+	case 0:
+		hist = append(hist, step{"set", N}, step{"set", N + 1}, step{"set", N + 2}, step{"get", 0}, step{"get", 3}, step{"get", N + 2})
+	case 1:
+		hist = append(hist, step{"get", 0}, step{"set", N}, step{"set", N + 1}, step{"get", 0}, step{"get", 1}, step{"get", 2}, step{"get", 3})
+	case 2:
+		hist = append(hist, step{"del", N / 2}, step{"set", N}, step{"get", 0}, step{"set", N + 1}, step{"get", 0}, step{"get", 1}, step{"get", N / 2})
+	}
+	if c.Keys == 3 {
+		// router clause: N+2 distinct paths requested on a router whose cache was configured with capacity N; every path
+		// is resolved once, its entry must be there until N further distinct paths were resolved
+		r := rux.New(rux.CachingWithNum(uint16(N)))
+		rt := r.GET("/p/{id}", func(*rux.Context) {})
+		model := &refmodel.LRU{Cap: N}
+		for i := 0; i < N+2; i++ {
+			st.Evals++
+			st.Transitions++
+			if m, _, _ := r.Match("GET", fmt.Sprintf("/p/%d", i)); m == nil {
+				addViol("router:large:match", fmt.Sprintf("CachingWithNum(%d): GET /p/%d matched no route", N, i))
+				return viols
+			}
+			model.Set(fmt.Sprintf("GET/p/%d", i), 0)
+			if i%64 == 63 || i >= N-2 {
+				keys, vals, ll, ml, _ := r.VerifCache().VerifSnapshot()
+				if ll != model.Len() || ml != model.Len() {
+					addViol("router:large:len", fmt.Sprintf("CachingWithNum(%d): after resolving %d distinct dynamic paths the cache holds %d entries (index %d), a bounded LRU of that capacity holds %d", N, i+1, ll, ml, model.Len()))
+					return viols
+				}
+				for j, e := range model.E {
+					if keys[j] != e.K || vals[j] == nil || vals[j].Path() != rt.Path() {
+						addViol("router:large:content", fmt.Sprintf("CachingWithNum(%d): after resolving %d distinct dynamic paths entry #%d (most recent first) is %q, a bounded LRU holds %q there", N, i+1, j, keys[j], e.K))
+						return viols
+					}
+				}
+			}
+		}
+		st.Inc("evictions", 2)
+		return viols
+	}
+	impl := rux.NewCachedRoutes(N)
+	model := &refmodel.LRU{Cap: N}
+	for i, h := range hist {
+		st.Evals++
+		st.Transitions++
+		o := lruOp{Op: h.op, K: h.k}
+		var got, want string
+		k := key(h.k)
+		where := func() string {
+			return fmt.Sprintf("capacity=%d history=[Set(k0..k%d) one by one, then %v] operation #%d %s(%s)", N, N-1, hist[N:], i, h.op, k)
+		}
+		switch h.op {
+		case "set":
+			pv := try(func() { impl.Set(k, c14Routes[(h.k%8)*2]) })
+			if pv != nil {
+				addViol("lru:panic", fmt.Sprintf("%s panicked: %v", where(), pv))
+				return viols
+			}
+			model.Set(k, (h.k%8)*2)
+			got, want = "ok", "ok"
+		case "get":
+			r, ok := impl.Get(k)
+			got = "miss"
+			if ok {
+				got = fmt.Sprintf("hit:v%d", c14RouteID[r])
+			}
+			v, ok2 := model.Get(k)
+			want = "miss"
+			if ok2 {
+				want = fmt.Sprintf("hit:v%d", v)
+			}
+		case "del":
+			got = fmt.Sprint(impl.Delete(k))
+			want = fmt.Sprint(model.Delete(k))
+		}
+		_ = o
+		if got != want {
+			addViol("lru:large:result:"+h.op, fmt.Sprintf("%s returned %s, LRU model returns %s", where(), got, want))
+		}
+		if impl.Len() != model.Len() {
+			addViol("lru:large:len", fmt.Sprintf("%s: Len() = %d, LRU model holds %d", where(), impl.Len(), model.Len()))
+			return viols
+		}
+		if i%64 == 63 || i >= N-2 {
+			post, ll, ml := c14Snap(impl)
+			if post != modelSnap(model) {
+				addViol("lru:large:state", fmt.Sprintf("%s: content differs from the LRU model (first entries: %.80s ... / model %.80s ...)", where(), post, modelSnap(model)))
+				return viols
+			}
+			if ll != ml || ll > N {
+				addViol("lru:invariant:capacity", fmt.Sprintf("%s: list length %d, map size %d, capacity %d", where(), ll, ml, N))
+			}
+		}
+	}
+	st.Nontrivial++
+	return viols
+}
+
 func c14RunLRU(c c14Case, st *fw.Stats) []fw.Viol {
 	ops := lruAlphabet(c.Keys)
 	type node struct {
@@ -271,7 +389,7 @@ var c14Spec = fw.Spec[c14Case]{
 	ID:         "C14",
 	Level:      "model_checking",
 	StateGraph: true,
-	Rule: "explicit-state search to fix-point: every reachable state of the real cachedRoutes (canonical form = keys and value ids in recency order, read through the verif hook) x every operation of {Set(k,v0|v1),Get(k),Has(k),Delete(k),Len()} compared with refmodel.LRU; " +
+	Rule: "explicit-state search to fix-point: every reachable state of the real cachedRoutes (canonical form = keys and value ids in recency order, read through the verif hook) x every operation of {Set(k,v0|v1),Get(k),Has(k),Delete(k),Len()} compared with refmodel.LRU; capacities {8,64,255,256,257,300,1000,1024,4097}: four fixed fill-past-capacity histories each (plain, refresh the oldest first, delete one first, as requests on a router configured with that capacity) compared with the model after every operation; " +
 		"router clause: every request history (BFS to fix-point over cache states) on caching routers; a state is non-trivial/distinct when its canonical form was not seen before",
 	Assume: []string{
 		"cache states are observed through the build-tag-guarded read-only accessor VerifSnapshot",
@@ -297,11 +415,19 @@ var c14Spec = fw.Spec[c14Case]{
 				emit(c14Case{Kind: "lru", Cap: c, Keys: k})
 			}
 		}
+		for _, n := range []int{8, 64, 255, 256, 257, 300, 1000, 1024, 4097} {
+			for h := 0; h < 4; h++ {
+				emit(c14Case{Kind: "lru-large", Cap: n, Keys: h})
+			}
+		}
 		c14GenRouter(tier, emit)
 	},
 	Run: func(c c14Case, st *fw.Stats) []fw.Viol {
 		if c.Kind == "router" {
 			return c14RunRouter(c, st)
+		}
+		if c.Kind == "lru-large" {
+			return c14RunLarge(c, st)
 		}
 		return c14RunLRU(c, st)
 	},
